@@ -35,7 +35,7 @@ fn col(w: bool) -> Color {
 /// mode 0: side to move is a lone king (terminal positions included); mode 1: see `king_has_quiet_step`.
 /// `slice` < 8 fixes the file of the family's first man (the symbolic space is cut into eight queries
 /// that run in parallel); 8 = no restriction.
-fn symmetry(wtm: bool, men: &[(usize, u8)], mode: u8, which: u8, slice: u8, tag: &str) {
+fn symmetry(wtm: bool, men: &[(usize, u8)], mode: u8, which: u8, slice: u8, tag: &str) -> Evaluation {
     let p = family(wtm, men, tag);
     if slice < 8 {
         let (c, k) = men[0];
@@ -60,31 +60,44 @@ fn symmetry(wtm: bool, men: &[(usize, u8)], mode: u8, which: u8, slice: u8, tag:
         let em = ev.evaluate(&sm, col(!persp_white), ply);
         assert!(em == e, "the colour-mirrored position scores the same from the mirrored perspective");
     }
-    kani::cover!(e != Evaluation::EVEN, "non-zero score");
-    kani::cover!(e.is_terminal() || mode == 1, "terminal score in the family");
+    e
+}
+
+macro_rules! maybe_mate_cover {
+    (mate, $e:expr) => {
+        kani::cover!($e.is_terminal(), "mate score in the family");
+    };
+    (nomate, $e:expr) => {};
 }
 
 macro_rules! sym_pair {
     ($neg:ident, $mir:ident, $wtm:expr, $men:expr, $mode:expr, $stub:path) => {
+        sym_pair!($neg, $mir, $wtm, $men, $mode, $stub, nomate);
+    };
+    ($neg:ident, $mir:ident, $wtm:expr, $men:expr, $mode:expr, $stub:path, $mate:ident) => {
         proof_geo! {
             #[cfg_attr(kani, kani::stub(weechess_core::MoveGenerator::compute_legal_moves, $stub))]
             fn $neg() {
-                symmetry($wtm, $men, $mode, 0, 8, concat!("c13 ", stringify!($neg)));
+                let e = symmetry($wtm, $men, $mode, 0, 8, concat!("c13 ", stringify!($neg)));
+                kani::cover!(e != Evaluation::EVEN, "non-zero score");
+                maybe_mate_cover!($mate, e);
             }
         }
         proof_geo! {
             #[cfg_attr(kani, kani::stub(weechess_core::MoveGenerator::compute_legal_moves, $stub))]
             fn $mir() {
-                symmetry($wtm, $men, $mode, 1, 8, concat!("c13 ", stringify!($mir)));
+                let e = symmetry($wtm, $men, $mode, 1, 8, concat!("c13 ", stringify!($mir)));
+                kani::cover!(e != Evaluation::EVEN, "non-zero score");
+                maybe_mate_cover!($mate, e);
             }
         }
     };
 }
 
-sym_pair!(krk_btm_negation, krk_btm_mirror, false, &[(0, 4)], 0, crate::c05::legal_moves_stub);
-sym_pair!(kqk_wtm_negation, kqk_wtm_mirror, true, &[(1, 5)], 0, crate::c05::legal_moves_stub);
+sym_pair!(krk_btm_negation, krk_btm_mirror, false, &[(0, 4)], 0, crate::c05::legal_moves_stub, mate);
+sym_pair!(kqk_wtm_negation, kqk_wtm_mirror, true, &[(1, 5)], 0, crate::c05::legal_moves_stub, mate);
 sym_pair!(kpk_btm_negation, kpk_btm_mirror, false, &[(0, 1)], 0, crate::c05::legal_moves_stub);
-sym_pair!(kbnk_btm_negation, kbnk_btm_mirror, false, &[(0, 3), (0, 2)], 0, crate::c05::legal_moves_stub);
+sym_pair!(kbnk_btm_negation, kbnk_btm_mirror, false, &[(0, 3), (0, 2)], 0, crate::c05::legal_moves_stub, mate);
 sym_pair!(kpkp_wtm_negation, kpkp_wtm_mirror, true, &[(0, 1), (1, 1)], 1, crate::c13::nonterminal_stub);
 sym_pair!(kppk_wtm_negation, kppk_wtm_mirror, true, &[(0, 1), (0, 1)], 1, crate::c13::nonterminal_stub);
 sym_pair!(krkn_btm_negation, krkn_btm_mirror, false, &[(0, 4), (1, 2)], 1, crate::c13::nonterminal_stub);
